@@ -114,7 +114,8 @@ var floors = map[string][]string{
 	"C10": {"e2e:values-compared"},
 	"C11": {"e2e:values-compared"},
 	"C12": {"e2e:values-compared", "tz="},
-	"C20": {"e2e:streamed-transactions"},
+	"C14": {"e2e:values-compared"},
+	"C20": {"e2e:streamed-transactions", "held:batches"},
 }
 
 type violation struct {
